@@ -11,11 +11,28 @@ import re
 
 from .engine import HarnessError
 
+# names brought in by `from <module> cimport ...` (C constants the runtime can supply)
+CIMPORTED = []
+C_CONSTANTS = {"UINT32_MAX": 2 ** 32 - 1, "INT32_MAX": 2 ** 31 - 1, "INT32_MIN": -(2 ** 31), "UINT64_MAX": 2 ** 64 - 1,
+               "INT64_MAX": 2 ** 63 - 1, "INT64_MIN": -(2 ** 63), "INT_MAX": 2 ** 31 - 1, "INT_MIN": -(2 ** 31),
+               "UINT_MAX": 2 ** 32 - 1, "LONG_MAX": 2 ** 63 - 1, "UINT8_MAX": 255, "UINT16_MAX": 65535}
+
+
+def cimported_namespace():
+    ns = {}
+    for module, name, alias in CIMPORTED:
+        if name not in C_CONSTANTS:
+            raise HarnessError("lower_pyx: cimported name %s.%s is not modelled" % (module, name))
+        ns[alias] = C_CONSTANTS[name]
+    return ns
+
+
 KNOWN_CTYPES = {"int", "long", "uint32", "list", "uint32[:]", "long[:]",
                 "const uint32[:]", "const long[:]"}
 
 
 def lower(src):
+    del CIMPORTED[:]
     out = []
     types = {}
     directives = {}
@@ -25,6 +42,13 @@ def lower(src):
         s = ln.strip()
         ind = ln[:len(ln) - len(ln.lstrip())]
         if s.startswith("cimport ") or s.startswith("ctypedef "):
+            out.append(ind + "pass  # " + s)
+            continue
+        m = re.match(r"from\s+([\w.]+)\s+cimport\s+(.+)$", s)
+        if m:
+            for nm in m.group(2).split(","):
+                nm = nm.strip().split(" as ")
+                CIMPORTED.append((m.group(1), nm[0].strip(), nm[-1].strip()))
             out.append(ind + "pass  # " + s)
             continue
         m = re.match(r"@cython\.(\w+)\((\w+)\)", s)
